@@ -277,6 +277,13 @@ def oracle(c, o):
             return "opendir and SimfileDirectory.open disagree in %s" % n
     if o["openpack"][0] == "err" and o["openpack"][1] == "load" and not c["strict"]:
         return "openpack did not pass strict=False through"
+    # SimfilePack(...).simfiles() and openpack open the same files under the same strictness
+    ps = o.get("pack_simfiles")
+    if ps is not None and (not c["ignore"] or not any(True for _ in [])):
+        if o["openpack"][0] == "ok" and ps[0] == "ok" and ps[1] != [x[0] for x in o["openpack"][1]] and not c["ignore"]:
+            return "SimfilePack.simfiles() and openpack opened different simfiles"
+        if o["openpack"][0] == "err" and o["openpack"][1] == "load" and ps[0] == "ok":
+            return "openpack failed to load a member (strict) but SimfilePack.simfiles() opened the pack quietly"
     # duplicates inside a member directory: the pack-level entry points raise like the directory does
     dup_members = []
     for m in want_pack:
